@@ -37,7 +37,7 @@ SPECS = {
     "ConsumableBuffer::at_offset": {"props": ["C03"], "contract": """    requires self.wf(), position <= self.octets@.len(),
     ensures r.wf(), r.octets == self.octets, r.position == position,"""},
     "Error::id": {"props": ["C03"], "contract": "    ensures r == err_id(self), // [C03:error_id_accessor]"},
-    "DomainName::deserialise": {"props": ["C03", "C16"], "rewrites": ["R2a"], "contract": """    requires old(buffer).wf(),
+    "DomainName::deserialise": {"props": ["C03", "C16", "C04"], "rewrites": ["R2a"], "contract": """    requires old(buffer).wf(),
     ensures """ + BUF_FRAME + """
         r is Ok ==> r->Ok_0.wf(), // [C03,C16:decoded_name_wf]
         r is Ok ==> final(buffer).position > old(buffer).position,
@@ -93,13 +93,13 @@ SPECS["Header::deserialise"] = {"props": ["C03"], "contract": """    requires ol
         r is Err && old(buffer).position + 2 <= old(buffer).octets@.len() ==> err_id(r->Err_0) == Some(be16(old(buffer).octets@[old(buffer).position as int], old(buffer).octets@[old(buffer).position + 1])), // [C03:error_carries_id]
         r is Err && old(buffer).position + 2 > old(buffer).octets@.len() ==> err_id(r->Err_0) is None,"""}
 SPECS["Header::deserialise"]["anchors"] = [{"after": "let flags2 = buffer.next_u8().ok_or(Error::HeaderTooShort(id))?;", "proof": "proof { lemma_header_decode_bits(flags1, flags2); }"}]
-SPECS["Question::deserialise"] = {"props": ["C03"], "contract": """    requires old(buffer).wf(),
+SPECS["Question::deserialise"] = {"props": ["C03", "C04"], "contract": """    requires old(buffer).wf(),
     ensures """ + BUF_FRAME + """
         r is Ok ==> r->Ok_0.name.wf(), // [C03,C16:decoded_name_wf]
         r is Err ==> err_id(r->Err_0) == Some(id), // [C03:error_carries_id]
         r is Ok <==> question_at(old(buffer).octets@, old(buffer).position as int) is Some, // [C03:accepts_exactly_the_well_formed_questions]
         r is Ok ==> question_is(r->Ok_0, old(buffer).octets@, old(buffer).position as int) && final(buffer).position == question_at(old(buffer).octets@, old(buffer).position as int)->Some_0, // [C03:question_read_as_an_independent_decoder_does]"""}
-SPECS["ResourceRecord::deserialise"] = {"props": ["C03"], "rewrites": [("R6", r6_inline_closure)], "attrs": "#[verifier::rlimit(60)] // 20 match arms, 3-4 s of SMT time", "contract": """    requires old(buffer).wf(),
+SPECS["ResourceRecord::deserialise"] = {"props": ["C03", "C04"], "rewrites": [("R6", r6_inline_closure)], "attrs": "#[verifier::rlimit(60)] // 20 match arms, 3-4 s of SMT time", "contract": """    requires old(buffer).wf(),
     ensures """ + BUF_FRAME + """
         r is Ok ==> r->Ok_0.name.wf(), // [C03,C16:decoded_name_wf]
         r is Ok ==> rr_names_wf(r->Ok_0.rtype_with_data), // [C03,C16:decoded_rdata_names_wf]
@@ -107,7 +107,7 @@ SPECS["ResourceRecord::deserialise"] = {"props": ["C03"], "rewrites": [("R6", r6
         r is Ok ==> rr_prefix_at(old(buffer).octets@, old(buffer).position as int) is Some, // [C03:record_header_present]
         r is Ok ==> rr_header_is(r->Ok_0, old(buffer).octets@, old(buffer).position as int), // [C03:record_header_read_as_an_independent_decoder_does]
         r is Ok ==> final(buffer).position == rr_end(old(buffer).octets@, old(buffer).position as int), // [C03:rdlength_equals_the_rdata_consumed]"""}
-SPECS["Message::deserialise"] = {"props": ["C03"], "contract": """    requires old(buffer).wf(), old(buffer).position == 0,
+SPECS["Message::deserialise"] = {"props": ["C03", "C04"], "contract": """    requires old(buffer).wf(), old(buffer).position == 0,
     ensures """ + BUF_FRAME + """
         r is Ok ==> old(buffer).octets@.len() >= 12 && msg_counts_ok(r->Ok_0, old(buffer).octets@), // [C03:section_lengths_equal_header_counts]
         r is Ok ==> r->Ok_0.header == header_unpack(be16(old(buffer).octets@[0], old(buffer).octets@[1]), old(buffer).octets@[2], old(buffer).octets@[3]), // [C03,C04:header_flags_read_as_rfc1035]
